@@ -2401,3 +2401,149 @@ theorem print_lex (cfg : Cfg) (s : Str) : printToks (lex cfg s) = s := by
   rw [printToks_coalesce, unscan_scan cfg _ s (by omega)]
 
 end Operon.Tmpl
+
+namespace Operon.Tmpl
+open Operon.Ribosome
+
+/-! ### `parse` is sound: the AST it returns flattens back to the tokens it was given (audit F2) -/
+
+def pend : PSt → List Tok
+  | .out => []
+  | .thn ws n acc => .ifO ws n :: acc
+  | .els ws n a acc => .ifO ws n :: a ++ .els :: acc
+  | .body ws n acc => .eachO ws n :: acc
+
+def accOK : PSt → Prop
+  | .out => True
+  | .thn _ _ acc => ∀ x ∈ acc, x.inline = true
+  | .els _ _ a acc => (∀ x ∈ a, x.inline = true) ∧ (∀ x ∈ acc, x.inline = true)
+  | .body _ _ acc => ∀ x ∈ acc, x.inline = true
+
+theorem mem_snoc_inline {acc : List Tok} {x : Tok} (h : ∀ y ∈ acc, y.inline = true) (hx : x.inline = true) :
+    ∀ y ∈ acc ++ [x], y.inline = true := by
+  intro y hy
+  rcases List.mem_append.mp hy with h1 | h1
+  · exact h y h1
+  · simp at h1; rw [h1]; exact hx
+
+theorem parseGo_sound : ∀ (ts : List Tok) (st : PSt) (t : Tmpl), parseGo st ts = some t → accOK st →
+    pend st ++ ts = flatten t ∧ ∀ s ∈ t, s.wf = true := by
+  intro ts
+  induction ts with
+  | nil =>
+    intro st t h _
+    cases st <;> simp [parseGo] at h
+    subst h
+    exact ⟨rfl, by simp⟩
+  | cons x ts ih =>
+    intro st t h hacc
+    -- a step that stays inside the current state machine: `pend st ++ [x] = pend st'`
+    have cont : ∀ st', parseGo st' ts = some t → accOK st' → pend st ++ [x] = pend st' →
+        pend st ++ x :: ts = flatten t ∧ ∀ s ∈ t, s.wf = true := by
+      intro st' h' ha hp
+      have := ih st' t h' ha
+      rw [← hp] at this
+      simpa using this
+    -- a step that closes a segment `sg`
+    have close : ∀ (sg : Seg) (t' : Tmpl), parseGo .out ts = some t' → t = sg :: t' → sg.wf = true →
+        pend st ++ [x] = sg.flatten → pend st ++ x :: ts = flatten t ∧ ∀ s ∈ t, s.wf = true := by
+      intro sg t' h' ht hwf hp
+      have := ih .out t' h' trivial
+      subst ht
+      refine ⟨?_, ?_⟩
+      · have e : pend st ++ x :: ts = (pend st ++ [x]) ++ ts := by simp
+        rw [e, hp]
+        simp only [pend, List.nil_append] at this
+        rw [this.1]
+        simp [flatten]
+      · intro s hs
+        rcases List.mem_cons.mp hs with rfl | h1
+        · exact hwf
+        · exact this.2 s h1
+    cases st with
+    | out =>
+      cases x with
+      | ifO ws n => exact cont (.thn ws n []) (by simpa [parseGo] using h) (by simp [accOK]) (by simp [pend])
+      | eachO ws n => exact cont (.body ws n []) (by simpa [parseGo] using h) (by simp [accOK]) (by simp [pend])
+      | els => simp [parseGo, Tok.inline] at h
+      | ifC => simp [parseGo, Tok.inline] at h
+      | eachC => simp [parseGo, Tok.inline] at h
+      | _ =>
+        simp only [parseGo, Tok.inline, if_true, Option.map_eq_some_iff] at h
+        obtain ⟨t', h', ht⟩ := h
+        exact close (.tok _) t' h' ht.symm (by simp [Seg.wf, Tok.inline]) (by simp [pend, Seg.flatten])
+    | thn ws n acc =>
+      simp only [accOK] at hacc
+      cases x with
+      | ifC =>
+        simp only [parseGo, Option.map_eq_some_iff] at h
+        obtain ⟨t', h', ht⟩ := h
+        exact close (.ifB ws n acc none) t' h' ht.symm (by simpa [Seg.wf] using hacc) (by simp [pend, Seg.flatten])
+      | els => exact cont (.els ws n acc []) (by simpa [parseGo] using h) (by simp [accOK]; exact hacc) (by simp [pend])
+      | ifO ws' n' => simp [parseGo, Tok.inline] at h
+      | eachO ws' n' => simp [parseGo, Tok.inline] at h
+      | eachC => simp [parseGo, Tok.inline] at h
+      | _ =>
+        simp only [parseGo, Tok.inline, if_true] at h
+        exact cont (.thn ws n (acc ++ [_])) h (by simp only [accOK]; exact mem_snoc_inline hacc (by simp [Tok.inline]))
+          (by simp [pend])
+    | els ws n a acc =>
+      simp only [accOK] at hacc
+      cases x with
+      | ifC =>
+        simp only [parseGo, Option.map_eq_some_iff] at h
+        obtain ⟨t', h', ht⟩ := h
+        exact close (.ifB ws n a (some acc)) t' h' ht.symm
+          (by simp only [Seg.wf, Bool.and_eq_true, List.all_eq_true, Option.getD]; exact hacc) (by simp [pend, Seg.flatten])
+      | els => simp [parseGo, Tok.inline] at h
+      | ifO ws' n' => simp [parseGo, Tok.inline] at h
+      | eachO ws' n' => simp [parseGo, Tok.inline] at h
+      | eachC => simp [parseGo, Tok.inline] at h
+      | _ =>
+        simp only [parseGo, Tok.inline, if_true] at h
+        exact cont (.els ws n a (acc ++ [_])) h
+          (by simp only [accOK]; exact ⟨hacc.1, mem_snoc_inline hacc.2 (by simp [Tok.inline])⟩) (by simp [pend])
+    | body ws n acc =>
+      simp only [accOK] at hacc
+      cases x with
+      | eachC =>
+        simp only [parseGo, Option.map_eq_some_iff] at h
+        obtain ⟨t', h', ht⟩ := h
+        exact close (.each ws n acc) t' h' ht.symm (by simpa [Seg.wf] using hacc) (by simp [pend, Seg.flatten])
+      | els => simp [parseGo, Tok.inline] at h
+      | ifC => simp [parseGo, Tok.inline] at h
+      | ifO ws' n' => simp [parseGo, Tok.inline] at h
+      | eachO ws' n' => simp [parseGo, Tok.inline] at h
+      | _ =>
+        simp only [parseGo, Tok.inline, if_true] at h
+        exact cont (.body ws n (acc ++ [_])) h (by simp only [accOK]; exact mem_snoc_inline hacc (by simp [Tok.inline]))
+          (by simp [pend])
+
+/-- `parse ts = some t` ⇒ `t` is a template with non-nested blocks whose tokens are exactly `ts` -/
+theorem parse_sound (ts : List Tok) (t : Tmpl) (h : parse ts = some t) : flatten t = ts ∧ ∀ s ∈ t, s.wf = true := by
+  have := parseGo_sound ts .out t h trivial
+  exact ⟨by simpa [pend] using this.1.symm, this.2⟩
+
+theorem wfs_clean {cfg : Cfg} (hs : CfgSane2 cfg) {t : Tok} (h : t.wfs cfg) : t.clean := by
+  cases t with
+  | pipe n a => exact h.2.1
+  | inc n => exact mem_of_word_ne hs.toCfgSane h
+  | _ => trivial
+
+theorem grammar_of_wfs {cfg : Cfg} (hs : CfgSane2 cfg) (t : Tmpl) (hwf : ∀ s ∈ t, s.wf = true)
+    (hw : ∀ x ∈ flatten t, x.wfs cfg) : Grammar t := by
+  refine ⟨hwf, ?_⟩
+  intro s hs'
+  have sub : ∀ x ∈ s.flatten, x.wfs cfg := fun x hx => hw x (by
+    simp only [flatten, List.mem_flatMap]; exact ⟨s, hs', hx⟩)
+  cases s with
+  | tok x => exact wfs_clean hs (sub x (by simp [Seg.flatten]))
+  | ifB ws n a e =>
+    refine ⟨fun x hx => wfs_clean hs (sub x ?_), fun x hx => wfs_clean hs (sub x ?_)⟩
+    · cases e <;> simp [Seg.flatten, hx]
+    · cases e with
+      | none => simp at hx
+      | some e' => simp at hx; simp [Seg.flatten, hx]
+  | each ws n b => exact fun x hx => wfs_clean hs (sub x (by simp [Seg.flatten, hx]))
+
+end Operon.Tmpl
